@@ -123,27 +123,50 @@ Qed.
 
 (* ------------------------------------------------------------------ one Message *)
 
+Lemma jett_removed_spec0 : forall (m : matcher) (rs : list path) (fuel : nat),
+  length rs < fuel -> jett_removed m fuel rs 0 = Some (filter (keep_removed m) rs).
+Proof. intros m rs fuel Hf. exact (jett_removed_spec m rs [] fuel Hf). Qed.
+
+Lemma jett_items_spec0 : forall (m : matcher) (i : nat) (p : path) (vs : list payload) (fuel : nat),
+  length vs < fuel -> jett_items true m fuel i p vs 0 = Some (filter (keep_value m p) vs).
+Proof. intros m i p vs fuel Hf. exact (jett_items_spec m i p vs [] fuel Hf). Qed.
+
+Definition field_vals (m : matcher) (p : path) (vs : list payload) : list payload :=
+  if N.ltb 0 (m_nfilters m) then filter (keep_value m p) vs
+  else if matches_path m p None then [] else vs.
+
+Lemma field_spec_vals : forall (m : matcher) (p : path) (vs : list payload),
+  field_spec m (p, vs) = match field_vals m p vs with [] => [] | _ => [(p, field_vals m p vs)] end.
+Proof. reflexivity. Qed.
+
+Lemma field_cur_vals : forall (m : matcher) (i : nat) (fuel : nat) (p : path) (vs : list payload),
+  length vs < fuel ->
+  (if N.ltb 0 (m_nfilters m) then jett_items true m fuel i p vs 0
+   else if matches_path m p None then Some [] else Some vs) = Some (field_vals m p vs).
+Proof.
+  intros m i fuel p vs Hvs. unfold field_vals.
+  destruct (N.ltb 0 (m_nfilters m)).
+  - apply jett_items_spec0. exact Hvs.
+  - destruct (matches_path m p None); reflexivity.
+Qed.
+
 Lemma jett_fields_spec : forall (m : matcher) (i : nat) (fuel : nat) (fs : list (path * list payload)),
   sets_weight fs < fuel ->
   jett_fields true m fuel i fs = Some (flat_map (field_spec m) fs).
 Proof.
   intros m i fuel fs. induction fs as [|[p vs] fs IH]; intros Hf.
   - reflexivity.
-  - cbn [jett_fields flat_map].
-    assert (Hvs : length vs < fuel) by (unfold sets_weight in Hf; simpl in Hf; lia).
+  - assert (Hvs : length vs < fuel) by (unfold sets_weight in Hf; simpl in Hf; lia).
     assert (Hfs : sets_weight fs < fuel) by (unfold sets_weight in *; simpl in Hf; lia).
-    rewrite (IH Hfs). unfold field_spec at 1. cbn [fst snd].
-    destruct (N.ltb 0 (m_nfilters m)) eqn:Hnf.
-    + pose proof (jett_items_spec m i p vs [] fuel Hvs) as Hit. simpl in Hit. rewrite Hit.
-      destruct (filter (keep_value m p) vs); reflexivity.
-    + destruct (matches_path m p None); [reflexivity|]. destruct vs; reflexivity.
+    cbn [jett_fields flat_map]. rewrite (field_cur_vals m i fuel p vs Hvs). rewrite (IH Hfs).
+    rewrite field_spec_vals. destruct (field_vals m p vs); reflexivity.
 Qed.
 
 Lemma jett_msg_spec : forall (m : matcher) (i : nat) (fuel : nat) (d : ditems),
   di_weight d < fuel -> jett_msg true m fuel i d = Some (msg_spec m d).
 Proof.
   intros m i fuel d Hf. unfold jett_msg, di_weight in *.
-  pose proof (jett_removed_spec m (di_removed d) [] fuel ltac:(lia)) as Hr. simpl in Hr. rewrite Hr.
+  rewrite jett_removed_spec0 by lia.
   rewrite jett_fields_spec by lia. reflexivity.
 Qed.
 
@@ -194,5 +217,93 @@ Qed.
 
 Lemma bpush_spec_ok : forall (fuel : nat) (b : bserver), 2 <= fuel -> bpush fuel b = Some (bpush_spec b).
 Proof. intros fuel b Hf. unfold bpush, bpush_spec. rewrite push_loop_spec by exact Hf. reflexivity. Qed.
+
+(* ------------------------------------------------------------------ induction over nested batches *)
+
+Section BcmdInd.
+Variable P : bcmd -> Prop.
+Hypothesis HBase : forall c, P (BBase c).
+Hypothesis HPing : forall t, P (BPing t).
+Hypothesis HNoop : P BNoop.
+Hypothesis HBounce : forall code what, P (BBounce code what).
+Hypothesis HJR : forall keys, P (BJettResults keys).
+Hypothesis HJT : forall ids, P (BJettTrees ids).
+Hypothesis HGT : forall id keys, P (BGetTrees id keys).
+Hypothesis HBatch : forall l, Forall P l -> P (BBatch l).
+
+Fixpoint bcmd_ind' (c : bcmd) : P c :=
+  match c with
+  | BBase c0 => HBase c0
+  | BPing t => HPing t
+  | BNoop => HNoop
+  | BBounce code what => HBounce code what
+  | BJettResults keys => HJR keys
+  | BJettTrees ids => HJT ids
+  | BGetTrees id keys => HGT id keys
+  | BBatch l =>
+    HBatch l ((fix go (l : list bcmd) : Forall P l :=
+                 match l with
+                 | [] => Forall_nil P
+                 | x :: r => Forall_cons x (bcmd_ind' x) (go r)
+                 end) l)
+  end.
+End BcmdInd.
+
+(* ------------------------------------------------------------------ the dispatch: fuel adequacy and meaning *)
+
+(* handler_fuel: with the repaired jettison loop, MessageReceivedFromGateway returns for every command in every state
+   as soon as the fuel exceeds the weight of the heaviest outgoing Message a jettison pass meets (and 2, for the
+   while-dirty loop); what it returns is the fuel-free meaning [bhandle_spec]. *)
+Lemma handler_fuel : forall (fx : fixes) (c : bcmd) (fuel nest : nat) (b : bserver) (s : sid),
+  2 <= fuel -> hpeak fx nest b s c < fuel ->
+  bhandle fx true fuel nest b s c = Some (bhandle_spec fx nest b s c).
+Proof.
+  intros fx c fuel. induction c as [c0|t| |code what|keys|ids|id keys|l IHl] using bcmd_ind';
+    intros nest b s Hf2 Hpk.
+  - cbn [bhandle bhandle_spec]. destruct (get_session (b_sv b) s); reflexivity.
+  - cbn [bhandle bhandle_spec]. destruct (get_session (b_sv b) s); reflexivity.
+  - cbn [bhandle bhandle_spec]. destruct (get_session (b_sv b) s); reflexivity.
+  - cbn [bhandle bhandle_spec]. destruct (get_session (b_sv b) s); reflexivity.
+  - cbn [bhandle bhandle_spec hpeak] in *. destruct (get_session (b_sv b) s); [|reflexivity].
+    unfold jett_matcher.
+    rewrite jettison_results_spec by exact Hpk. reflexivity.
+  - cbn [bhandle bhandle_spec]. destruct (get_session (b_sv b) s); reflexivity.
+  - cbn [bhandle bhandle_spec]. destruct (get_session (b_sv b) s); reflexivity.
+  - cbn [bhandle bhandle_spec hpeak] in *. destruct (get_session (b_sv b) s); [|reflexivity].
+    destruct (Nat.ltb nest max_batch_nest); [|reflexivity].
+    revert b Hpk. induction IHl as [|c' r Hc' _ IHr]; intros b Hpk.
+    + reflexivity.
+    + rewrite (Hc' (S nest) b s Hf2) by lia.
+      rewrite bpush_spec_ok by exact Hf2.
+      apply IHr. lia.
+Qed.
+
+Lemma handler_returns : forall (fx : fixes) (c : bcmd) (nest : nat) (b : bserver) (s : sid),
+  exists fuel0, forall fuel, fuel0 <= fuel -> exists b', bhandle fx true fuel nest b s c = Some b'.
+Proof.
+  intros fx c nest b s. exists (S (S (hpeak fx nest b s c))). intros fuel Hf.
+  eexists. apply handler_fuel; lia.
+Qed.
+
+(* server_step_total: one turn of the event loop returns, for every event in every state *)
+Lemma server_step_total : forall (fx : fixes) (fuel : nat) (b : bserver) (ev : bevent),
+  2 <= fuel -> speak fx b ev < fuel -> bstep fx true fuel b ev = Some (bstep_spec fx b ev).
+Proof.
+  intros fx fuel b ev Hf2 Hpk. destruct ev as [s host nm|s|s bl|s c]; cbn [bstep bstep_spec speak] in *.
+  - destruct (get_session (b_sv b) s); reflexivity.
+  - reflexivity.
+  - reflexivity.
+  - destruct (get_session (b_sv b) s); [|reflexivity].
+    rewrite handler_fuel by assumption. rewrite bpush_spec_ok by exact Hf2. reflexivity.
+Qed.
+
+Lemma server_run_total : forall (fx : fixes) (fuel : nat) (evs : list bevent) (b : bserver),
+  2 <= fuel -> rpeak fx evs b < fuel -> brun fx true fuel evs b = Some (brun_spec fx evs b).
+Proof.
+  intros fx fuel evs. induction evs as [|ev r IH]; intros b Hf2 Hpk.
+  - reflexivity.
+  - cbn [brun rpeak] in *. rewrite server_step_total by lia.
+    unfold brun_spec. cbn [fold_left]. apply IH; [exact Hf2|lia].
+Qed.
 
 End Proofs.
